@@ -116,6 +116,8 @@ def op_menu(name):
         ops += [("modify", f), ("delete", f), ("recreate", f), ("modify_restore", f)]
     for f in t["files"][:2]:
         ops.append(("rename", f, f + ".moved"))
+    # a file replaced by a directory of the same name
+    ops.append(("to_dir", t["files"][0]))
     for d in t["dirs"]:
         ops += [("rmtree", d), ("rename", d, d + "_moved"), ("populate", d)]
     return ops
@@ -150,6 +152,11 @@ def apply_op(world, op, originals):
     elif kind == "rename":
         if world.exists(path) and not world.exists(op[2]):
             world.rename(path, op[2])
+    elif kind == "to_dir":
+        if world.exists(path):
+            world.remove(path)
+        world.mkdir(path)
+        world.write(f"{path}/inside.txt", "inside\n")
     elif kind == "rmtree":
         if world.exists(path):
             world.remove(path)
@@ -359,7 +366,13 @@ def run_job(spec):
                 if ga != gb:
                     problems["graph"] = canon.diff_graphs(ga, gb, 5)
             if problems:
-                if name == "glob_multi" and new_directory_root_cause(files, ops, problems):
+                if any(op[0] == "to_dir" for op in ops):
+                    # known root cause: the watcher reports the file as deleted and the rebuild
+                    # goes on without it, the start-up scan of a restart cannot hash a
+                    # directory, reports an error and drains
+                    key = "C14|new-directory-named-like-a-tracked-file"
+                    problems = dict(problems)
+                elif name == "glob_multi" and new_directory_root_cause(files, ops, problems):
                     key = "C14|new-directory-at-a-wildcard-level-of-a-pattern-is-not-watched"
                     problems = dict(problems)
                 acc.violation(key + ("" if key.startswith("C14|new-directory") else "|" + "+".join(sorted(problems))),
